@@ -21,8 +21,10 @@ MANIFEST = {
             "the sender's lowest pooled nonces (never a run above a pooled, unprocessed lower nonce). Blocking: "
             "the lock skeletons of txpool.go/txlist.go/event.go, regenerated from /repo on every run, are safe programs, hence "
             "(Conc/Progress.v) no pool operation can wait for a lock forever, including when the pool is full; every method of the pool "
-            "and of the sender list is a single critical section of its own lock (generated Conc/Atomic.v obligation), which is what "
-            "makes the single-step model the implementation's state machine. The model is tied to "
+            "and of the sender list takes its own lock exactly once on every path in the mode pinned for it (W for Add/Remove/list "
+            "operations, R for the getters; generated Conc/Atomic.v obligations locking_table_ok, atomic_ops_single_section), which "
+            "is what makes the single-step model the implementation's state machine; the harness is built with -race and keeps a "
+            "reader calling the read API during every overlapped pair. The model is tied to "
             "the Go code by replaying random operation sequences (limits 1..3, evictions, replacements, reorgs interleaved with "
             "Add/Remove at the verifier call, Adds parked at their own verifier call overlapped with a second Add / Remove / reorg) "
             "on the real pool through a verif-tagged snapshot hook, each call under a watchdog; "
@@ -68,7 +70,7 @@ def count_generated(ck):
         src = open(SKEL_OUT).read()
     except OSError:
         return 0
-    return len(re.findall(r"^Lemma (safe_|fanouts_ok|multi_reads_ok|atomic_ops_single_section|every_go_site_classified)", src, re.M))
+    return len(re.findall(r"^Lemma ", src, re.M))
 
 
 def tx_term(a):
@@ -124,7 +126,8 @@ def classify(r, where):
     st = r["steps"][ix - 1] if 0 < ix <= len(r["steps"]) else None
     opk = st["op"][0] if st else "?"
     if st and st["hang"]:
-        return "c14:%s:hang" % opk, "pool operation %s did not return within the watchdog (step %d)" % (opk, ix)
+        return "c14:%s:hang" % opk, "pool operation %s did not return within the watchdog (step %d); goroutines inside pkg/txpool: %s" % (
+            opk, ix, " | ".join(l for l in st.get("dump", "").splitlines() if l.startswith("goroutine") or "txpool." in l)[:900])
     if st and st["panic"]:
         return "c14:%s:panic" % opk, "pool operation %s panicked: %s (step %d)" % (opk, st["panic"], ix)
     if bad:
@@ -192,6 +195,60 @@ def evaluate(ck, recs):
             ck.failures.append(f)
 
 
+BLOCKED = re.compile(r"goroutine \d+ \[(semacquire|sync\.Mutex\.Lock|sync\.RWMutex\.R?Lock|chan receive|chan send|select|sync\.WaitGroup\.Wait|sync\.Cond\.Wait)")
+
+
+def harness_cases(ck, binp, args, tag):
+    """run the harness; a hang is neither erased nor reported from load alone: every hung case is re-run (same input,
+    60 s watchdog). The original stays a failure unless the re-run completes AND, in the first run's goroutine dump, no
+    goroutine of pkg/txpool was blocked on a lock/channel other than through a call the harness itself was holding."""
+    env = {"GORACE": "log_path=%s exitcode=0 halt_on_error=0" % os.path.join(ck.work, "race_c14")}
+    recs = ck.run_harness(binp, args, out_name=tag + ".jsonl", env_extra=env)
+    if recs is None:
+        return None
+    hung = [r for r in recs if any(s["hang"] for s in r["steps"])]
+    if not hung:
+        return recs
+    inp = os.path.join(ck.work, tag + "_rerun_in.jsonl")
+    open(inp, "w").write("".join(json.dumps(r) + "\n" for r in hung))
+    again = ck.run_harness(binp, ["-in", inp, "-n", "0"], out_name=tag + "_rerun.jsonl", timeout=3600,
+                           env_extra=dict(env, VERIF_WATCHDOG_MS="60000"))
+    again = (again or [])[-len(hung):]
+    replaced, kept = {}, 0
+    for i, orig in enumerate(hung):
+        st = next(s for s in orig["steps"] if s["hang"])
+        re_ok = i < len(again) and len(again) == len(hung) and not any(s["hang"] or s["panic"] for s in again[i]["steps"])
+        blocked = bool(BLOCKED.search(st.get("dump", "")))
+        if re_ok and (st.get("held") or not blocked):
+            replaced[id(orig)] = again[i]
+        else:
+            kept += 1
+    ck.notes.append("%s: %d case(s) did not return within the watchdog; re-run with 60 s: %d completed and showed no pool goroutine "
+                    "blocked (treated as load), %d kept as failures (dump in the replay)" % (tag, len(hung), len(replaced), kept))
+    return [replaced.get(id(r), r) for r in recs]
+
+
+def race_reports(ck):
+    import glob
+    seen = set()
+    for f in sorted(glob.glob(os.path.join(ck.work, "race_c14.*"))):
+        for txt in [x for x in open(f, errors="replace").read().split("==================") if "DATA RACE" in x]:
+            m = re.search(r"lisk-engine/(pkg/\S+?)\(\)", txt)
+            site = m.group(1) if m else None
+            if site is None:
+                ck.fail_obligation("harness-race", "race report without a frame of the code under test (harness-internal): inconclusive: " + txt[:600])
+                continue
+            if site in seen:
+                continue
+            seen.add(site)
+            fl = dict(kind="schedule", key="c14:race:" + site, what="Go race detector: data race at %s while pool operations overlapped" % site,
+                      case={"race_report": txt[:6000]}, expected="every access to the pool indexes under the pool mutex", observed="WARNING: DATA RACE",
+                      theorem_or_correspondence="harness/cmd/c14 built with -race (overlapped operations)")
+            fl["spec_violated"] = True
+            ck.failures.append(fl)
+        os.remove(f)
+
+
 def run(ck):
     summ = run_translator(ck)
     ngen = count_generated(ck)
@@ -199,39 +256,44 @@ def run(ck):
     ok = ck.prove(extra_targets=["Corr/C14.vo"])
     if ok:
         ck.discharged += ngen
-    binp = ck.go_build("c14")
+    binp = ck.go_build("c14", race=True)   # -race: an unlocked reader or mutator overlapping an Add is reported
     if not binp:
         return
     args = ["-n", "400", "-len", "14"] if ck.tier == "quick" else ["-n", "6000", "-len", "18"]
-    recs = ck.run_harness(binp, args)
+    recs = harness_cases(ck, binp, args, "cases")
     if recs is None:
         return
-    floor = 300 if ck.tier == "quick" else 4000
-    ck.obligations += 1
-    if len(recs) < floor or sum(len(r["steps"]) for r in recs) < 5 * floor:
-        ck.fail_obligation("harness-volume", "harness/cmd/c14 produced %d cases (%d steps), fewer than the floor %d: inconclusive, "
-                           "not a pass" % (len(recs), sum(len(r["steps"]) for r in recs), floor))
-    else:
-        ck.discharged += 1
-    # a hang may be load, not a deadlock: such cases are re-run once with a five times longer watchdog before they count
-    hung = [r for r in recs if any(s["hang"] for s in r["steps"])]
-    if hung:
-        inp = os.path.join(ck.work, "rerun_in.jsonl")
-        open(inp, "w").write("".join(json.dumps(r) + "\n" for r in hung[:20]))
-        again = ck.run_harness(binp, ["-in", inp, "-n", "0"], out_name="rerun.jsonl", env_extra={"VERIF_WATCHDOG_MS": "15000"})
-        if again is not None:
-            again = again[-len(hung[:20]):]
-            still = [r for r in again if any(s["hang"] for s in r["steps"])]
-            ck.notes.append("%d case(s) hung within the 3 s watchdog; re-run with 15 s: %d still hang" % (len(hung), len(still)))
-            ids = {id(r) for r in hung[:20]}
-            recs = [r for r in recs if id(r) not in ids] + again
     evaluate(ck, recs)
-    # one shard with equal fee priorities across senders (eviction victim chosen by map order: the model follows the
-    # implementation through the ids that disappeared); not reproducible byte for byte, the verdict is
-    ties = ck.run_harness(binp, ["-ties", "-n", "60" if ck.tier == "quick" else "600", "-len", "14"], out_name="ties.jsonl")
+    # one shard with equal fee priorities across senders (eviction victim chosen by map order: the evaluator searches
+    # the choice among the ids that disappeared); not reproducible byte for byte, the verdict is
+    ties = harness_cases(ck, binp, ["-ties", "-n", "120" if ck.tier == "quick" else "1500", "-len", "14"], "ties")
     if ties is not None:
         evaluate(ck, ties)
         ck.extra["ties_shard_cases"] = len(ties)
+    race_reports(ck)
+    # floors, by construction of the generator: a run that did not exercise these is inconclusive, not a pass
+    allsteps = [s for r in recs + (ties or []) for s in r["steps"]]
+    have = {
+        "cases": len(recs),
+        "steps": sum(len(r["steps"]) for r in recs),
+        "overlapped adds": sum(1 for s in allsteps if s.get("par")),
+        "adds dropping a pooled tx (eviction/replacement)": sum(1 for s in allsteps if s["op"][0] == "add" and s["gone"]),
+        "adds for an occupied (sender, nonce) slot": sum(1 for r in recs + (ties or []) for i, s in enumerate(r["steps"]) if s["op"][0] == "add" and i > 0
+                                                     and any(l[0] == s["op"][2] and s["op"][3] in l[1] for l in r["steps"][i - 1]["snap"]["lists"])),
+        "fees or nonces at the uint64 edge": sum(1 for s in allsteps if s["op"][0] == "add" and (s["op"][3] >= 2 ** 63 or s["op"][4] >= 2 ** 63)),
+        "ties-shard cases": len(ties or []),
+    }
+    q = ck.tier == "quick"
+    need = {"cases": 300 if q else 4000, "steps": 1500 if q else 20000, "overlapped adds": 60 if q else 800,
+            "adds dropping a pooled tx (eviction/replacement)": 40 if q else 500, "adds for an occupied (sender, nonce) slot": 30 if q else 400,
+            "fees or nonces at the uint64 edge": 5 if q else 60, "ties-shard cases": 100 if q else 1000}
+    ck.obligations += 1
+    short = ["%s: %d < %d" % (k, have[k], need[k]) for k in need if have[k] < need[k]]
+    if short:
+        ck.fail_obligation("harness-volume", "harness/cmd/c14 ran below its floors (" + "; ".join(short) + "): inconclusive, not a pass")
+    else:
+        ck.discharged += 1
+    ck.extra["floors"] = {k: [have[k], need[k]] for k in need}
     steps = [s for r in recs for s in r["steps"]]
     dist = {}
     for s in steps:
@@ -243,7 +305,7 @@ def run(ck):
         "steps_with_processables": sum(1 for s in steps if any(l[4] for l in s["snap"]["lists"])),
         "overlapped_adds": sum(1 for s in steps if s.get("par")),
         "interleaved_reorgs": sum(1 for r in recs for a, b in zip(r["steps"], r["steps"][1:]) if a["op"][0] == "begin" and b["op"][0] != "finish"),
-        "limits": "MaxTransactions 1..3, MaxTransactionsPerAccount 1..3",
+        "limits": "MaxTransactions %d..%d, MaxTransactionsPerAccount %d..%d" % (min(r["cfg"][0] for r in recs), max(r["cfg"][0] for r in recs), min(r["cfg"][1] for r in recs), max(r["cfg"][1] for r in recs)),
     }
     for r in recs[:2] + [x for x in recs if any(s["gone"] for s in x["steps"])][:1]:
         ck.sample({"cfg": r["cfg"], "ops": [s["op"] for s in r["steps"]]})
@@ -272,11 +334,11 @@ def replay(ck, path):
         return ck.finish(LEVEL)
     run_translator(ck)
     ck.prove(extra_targets=["Corr/C14.vo"])
-    binp = ck.go_build("c14")
+    binp = ck.go_build("c14", race=True)
     if binp:
         inp = os.path.join(ck.work, "replay_in.jsonl")
         open(inp, "w").write(json.dumps(case) + "\n")
-        recs = ck.run_harness(binp, ["-in", inp, "-n", "0"], out_name="replay.jsonl")
+        recs = harness_cases(ck, binp, ["-in", inp, "-n", "0"], "replay")
         if recs is not None:
             recs = [r for r in recs if [s["op"] for s in r["steps"]][:len(case["steps"])] == [s["op"] for s in case["steps"]]] or recs
             evaluate(ck, recs[-1:])
